@@ -46,6 +46,30 @@ theorem sgrOk_rgb (w r g b : Nat) (hw : w = 38 ∨ w = 48) (hr : r ≤ 255) (hg 
     rcases hw with rfl | rfl <;> simp [sgrParams, sgrParam, h1, h2, h3]
   · rcases hw with rfl | rfl <;> rfl
 
+theorem sgrOk_ulIdx (i : Nat) (hi : i ≤ 255) : SgrOk [[58, 5, i]] := by
+  constructor
+  · have h3 : (i : Int) ≤ 255 := by omega
+    simp [sgrParams, sgrParam, h3]
+  · rfl
+
+theorem sgrOk_ulRgb (r g b : Nat) (hr : r ≤ 255) (hg : g ≤ 255) (hb : b ≤ 255) : SgrOk [[58, 2, r, g, b]] := by
+  constructor
+  · have h1 : (r : Int) ≤ 255 := by omega
+    have h2 : (g : Int) ≤ 255 := by omega
+    have h3 : (b : Int) ≤ 255 := by omega
+    simp [sgrParams, sgrParam, h1, h2, h3]
+  · rfl
+
+/-- `4:n`, the styled underline, n = 0 … 5 (off, single, double, curly, dotted, dashed). -/
+theorem sgrOk_ulStyle (n : Nat) (hn : n ≤ 5) : SgrOk [[4, n]] := by
+  constructor
+  · have h3 : (n : Int) ≤ 255 := by omega
+    simp [sgrParams, sgrParam, h3]
+  · unfold WfSgr
+    have h4 : ¬ ((4 : Nat) = 38 ∨ (4 : Nat) = 48 ∨ (4 : Nat) = 58) := by omega
+    simp only [h4, if_false, if_true, decide_eq_true hn, Bool.true_and]
+    rfl
+
 /-! ### the pieces of the pen delta -/
 
 variable (dec : String → G) (tw : String → Nat)
@@ -124,6 +148,18 @@ theorem colorToksP_ok (which : Nat) (hw : which = 30 ∨ which = 40) (ps : List 
         · exact sgrOk_idx 38 i (Or.inl rfl) (by omega)
         · exact sgrOk_idx 48 i (Or.inr rfl) (by omega)
 
+theorem ulColorToksP_ok (ps : List Nat)
+    (h : ps = [] ∨ (∃ i, i < 256 ∧ ps = [i]) ∨ ∃ r g b, r < 256 ∧ g < 256 ∧ b < 256 ∧ ps = [r, g, b]) :
+    ∀ k ∈ ulColorToksP ps, TokOk dec tw k := by
+  intro k hk
+  rcases h with rfl | ⟨i, hi, rfl⟩ | ⟨r, g, b, hr, hg, hb, rfl⟩
+  · simp [ulColorToksP] at hk; subst hk
+    exact sgrOk_single 59 (by omega) (by omega) (by omega) (by omega) (by omega) (by omega)
+  · simp [ulColorToksP] at hk; subst hk
+    exact sgrOk_ulIdx i (by omega)
+  · simp [ulColorToksP] at hk; subst hk
+    exact sgrOk_ulRgb r g b (by omega) (by omega) (by omega)
+
 /-- The attribute codes the renderer writes. -/
 def isAttrTok : Tok → Bool
   | .sgr [[n]] => [1, 2, 3, 5, 7, 8, 9, 22, 23, 25, 27, 28, 29].contains n
@@ -151,8 +187,8 @@ theorem attrToks_ok (a b : Nat) : ∀ k ∈ attrToks a b, TokOk dec tw k := by
   rw [List.all_eq_true] at hall
   exact isAttrTok_ok dec tw k (hall k hk)
 
-theorem penDelta_ok (caps : Caps) (hsu : caps.styledUnderlines = false)
-    (pen next : Style) (h0 : 59 ∉ dec "") (hlp : 59 ∉ dec next.linkParams) :
+theorem penDelta_ok (caps : Caps) (pen next : Style) (hsu : caps.styledUnderlines = true → next.ulStyle ≤ 5)
+    (h0 : 59 ∉ dec "") (hlp : 59 ∉ dec next.linkParams) :
     ∀ k ∈ penDelta caps pen next, TokOk dec tw k := by
   intro k hk
   unfold penDelta at hk
@@ -165,14 +201,17 @@ theorem penDelta_ok (caps : Caps) (hsu : caps.styledUnderlines = false)
     · exact colorToksP_ok3 dec tw 40 (Or.inr rfl) _ (effParams_shape3 caps _) k h
     · simp at h
   · split at h
-    · rename_i hc; rw [hsu] at hc; simp at hc
+    · exact ulColorToksP_ok dec tw _ (effParams_shape3 caps _) k h
     · simp at h
   · exact attrToks_ok dec tw _ _ k h
   · split at h
-    · simp only [hsu, Bool.false_eq_true, if_false] at h
-      split at h <;> (simp at h; subst h)
-      · exact sgrOk_single 24 (by omega) (by omega) (by omega) (by omega) (by omega) (by omega)
-      · exact sgrOk_single 4 (by omega) (by omega) (by omega) (by omega) (by omega) (by omega)
+    · split at h
+      · rename_i hc
+        simp at h; subst h
+        exact sgrOk_ulStyle _ (hsu hc)
+      · split at h <;> (simp at h; subst h)
+        · exact sgrOk_single 24 (by omega) (by omega) (by omega) (by omega) (by omega) (by omega)
+        · exact sgrOk_single 4 (by omega) (by omega) (by omega) (by omega) (by omega) (by omega)
     · simp at h
   · split at h
     · simp at h; subst h
@@ -202,31 +241,33 @@ theorem close_ok (h0 : 59 ∉ dec "") : TokOk dec tw (Tok.osc8 "" "") := ⟨h0, 
 
 /-! ### the cell loop -/
 
-theorem renderCells_ok (cw : String → Nat) (caps : Caps) (hsu : caps.styledUnderlines = false)
+theorem renderCells_ok (cw : String → Nat) (caps : Caps)
     (hew : caps.explicitWidth = false) (hsp : cw "20" = 1) (hd : dec "20" ≠ []) (h0 : 59 ∉ dec "")
     (refresh : Bool) (row : Nat) :
     ∀ (next last : List Cell) (col skip : Nat) (track : Bool) (dirty : Nat) (st : RSt),
       (∀ c ∈ next, CellOk dec cw c) →
+      (caps.styledUnderlines = true → ∀ c ∈ next, c.style.ulStyle ≤ 5) →
       (∀ k ∈ st.out, TokOk dec cw k) →
       ∀ k ∈ (renderCells cw caps refresh row col skip track dirty next last st).2.out, TokOk dec cw k := by
   intro next
   induction next with
-  | nil => intro last col skip track dirty st _ h; simpa [renderCells] using h
+  | nil => intro last col skip track dirty st _ _ h; simpa [renderCells] using h
   | cons n ns ih =>
-    intro last col skip track dirty st hc h
+    intro last col skip track dirty st hc hu h
     have hcs : ∀ c ∈ ns, CellOk dec cw c := fun c hc' => hc c (by simp [hc'])
+    have hus : caps.styledUnderlines = true → ∀ c ∈ ns, c.style.ulStyle ≤ 5 := fun hs c hc' => hu hs c (by simp [hc'])
     cases last with
     | nil => simpa [renderCells] using h
     | cons l ls =>
       cases skip with
-      | succ k => simp only [renderCells]; exact ih ls (col + 1) k track _ st hcs h
+      | succ k => simp only [renderCells]; exact ih ls (col + 1) k track _ st hcs hus h
       | zero =>
         simp only [renderCells]
         split
-        · exact ih ls (col + 1) 0 false dirty { st with reposition := true } hcs h
+        · exact ih ls (col + 1) 0 false dirty { st with reposition := true } hcs hus h
         · split
-          · exact ih ls (col + 1) (advance cw n) false dirty { st with reposition := true } hcs h
-          · apply ih _ _ _ _ _ _ hcs
+          · exact ih ls (col + 1) (advance cw n) false dirty { st with reposition := true } hcs hus h
+          · apply ih _ _ _ _ _ _ hcs hus
             intro k hk
             simp only [List.mem_append, List.mem_singleton] at hk
             rcases hk with hk | ((hk | hk) | hk)
@@ -238,28 +279,29 @@ theorem renderCells_ok (cw : String → Nat) (caps : Caps) (hsu : caps.styledUnd
                   subst hk; exact close_ok dec cw h0
                 · subst hk; trivial
               · simp at hk
-            · exact penDelta_ok dec cw caps hsu _ _ h0 (hc n (by simp)).2.2 k hk
+            · exact penDelta_ok dec cw caps _ _ (fun hs => hu hs n (by simp)) h0 (hc n (by simp)).2.2 k hk
             · subst hk; exact glyphTok_ok dec cw caps hew n hsp hd (hc n (by simp))
 
-theorem renderRows_ok (cw : String → Nat) (caps : Caps) (hsu : caps.styledUnderlines = false)
+theorem renderRows_ok (cw : String → Nat) (caps : Caps)
     (hew : caps.explicitWidth = false) (hsp : cw "20" = 1) (hd : dec "20" ≠ []) (h0 : 59 ∉ dec "")
     (refresh : Bool) :
     ∀ (next last : Grid) (row : Nat) (st : RSt),
       (∀ r ∈ next, ∀ c ∈ r, CellOk dec cw c) →
+      (caps.styledUnderlines = true → ∀ r ∈ next, ∀ c ∈ r, c.style.ulStyle ≤ 5) →
       (∀ k ∈ st.out, TokOk dec cw k) →
       ∀ k ∈ (renderRows cw caps refresh row next last st).2.out, TokOk dec cw k := by
   intro next
   induction next with
-  | nil => intro last row st _ h; simpa [renderRows] using h
+  | nil => intro last row st _ _ h; simpa [renderRows] using h
   | cons n ns ih =>
-    intro last row st hc h
+    intro last row st hc hu h
     cases last with
     | nil => simpa [renderRows] using h
     | cons l ls =>
       simp only [renderRows]
-      apply ih _ _ _ (fun r hr => hc r (by simp [hr]))
-      exact renderCells_ok dec cw caps hsu hew hsp hd h0 refresh row n l 0 0 false 0 { st with reposition := true }
-        (hc n (by simp)) h
+      apply ih _ _ _ (fun r hr => hc r (by simp [hr])) (fun hs r hr => hu hs r (by simp [hr]))
+      exact renderCells_ok dec cw caps hew hsp hd h0 refresh row n l 0 0 false 0 { st with reposition := true }
+        (hc n (by simp)) (fun hs => hu hs n (by simp)) h
 
 /-! ### the frame -/
 
@@ -274,7 +316,8 @@ theorem showCursor_ok (c : CursorState) (hs : c.style ≤ 65535) : ∀ k ∈ sho
 /-- **Every token of a frame rendered under a capability set without styled underlines, explicit width
     and synchronized output — with or without direct colour — is covered by the simulation**, for all grids whose cells are `CellOk` and every cursor request with a shape value
     ≤ 65535. -/
-theorem frame_ok_anyRgb (cw : String → Nat) (f : Frame) (hsu : f.caps.styledUnderlines = false)
+theorem frame_ok_anyCaps (cw : String → Nat) (f : Frame)
+    (hul : f.caps.styledUnderlines = true → ∀ r ∈ f.next, ∀ c ∈ r, c.style.ulStyle ≤ 5)
     (hew : f.caps.explicitWidth = false) (hsy : f.caps.sync = false)
     (hsp : cw "20" = 1) (hd : dec "20" ≠ []) (h0 : 59 ∉ dec "")
     (hc : ∀ r ∈ f.next, ∀ c ∈ r, CellOk dec cw c) (hs : f.cursorNext.style ≤ 65535) :
@@ -284,7 +327,7 @@ theorem frame_ok_anyRgb (cw : String → Nat) (f : Frame) (hsu : f.caps.styledUn
     unfold renderBody at hk
     simp only [List.mem_append] at hk
     rcases hk with (hk | hk) | hk
-    · refine renderRows_ok dec cw f.caps hsu hew hsp hd h0 f.refresh f.next f.last 0 _ hc ?_ k hk
+    · refine renderRows_ok dec cw f.caps hew hsp hd h0 f.refresh f.next f.last 0 _ hc hul ?_ k hk
       intro k' hk'
       simp only at hk'
       split at hk' <;> simp at hk'
@@ -313,6 +356,14 @@ theorem frame_ok_anyRgb (cw : String → Nat) (f : Frame) (hsu : f.caps.styledUn
       · exact showCursor_ok dec cw _ hs k hk
       · simp at hk
     · rw [hsy] at hk; simp at hk
+
+/-- The round-3 signature: no styled underlines (then nothing is asked of the cells' underline styles). -/
+theorem frame_ok_anyRgb (cw : String → Nat) (f : Frame) (hsu : f.caps.styledUnderlines = false)
+    (hew : f.caps.explicitWidth = false) (hsy : f.caps.sync = false)
+    (hsp : cw "20" = 1) (hd : dec "20" ≠ []) (h0 : 59 ∉ dec "")
+    (hc : ∀ r ∈ f.next, ∀ c ∈ r, CellOk dec cw c) (hs : f.cursorNext.style ≤ 65535) :
+    ∀ k ∈ (renderFrame cw f).2, TokOk dec cw k :=
+  frame_ok_anyCaps dec cw f (fun h => by rw [hsu] at h; cases h) hew hsy hsp hd h0 hc hs
 
 /-- The same with the round-2 signature (the capability set without direct colour). -/
 theorem frame_ok (cw : String → Nat) (f : Frame) (_hrgb : f.caps.rgb = false) (hsu : f.caps.styledUnderlines = false)
